@@ -7,6 +7,7 @@ ordered pair (A,B): identity, A->B->A, all routes agree; for triples A->B->C vs 
 """
 
 import itertools
+from fractions import Fraction
 
 import numpy as np
 
@@ -515,6 +516,77 @@ def part_namesake(ctx, shard):
                     ctx.violation(f"C03|namesake|how={how}|mode=source-changed", {"part": "namesake", "expr": expr, "how": how}, None, None)
 
 
+ALGEBRA_SOURCES = ["km", "hr", "degC", "degF", "mdegC", "lat", "lon", "K", "delta_degC", "percent", "dB"]
+
+
+def _algebra_targets(u):
+    """Unit objects that denote u itself, reached through unit algebra / copies (never through a string)"""
+    import copy as _copy
+
+    out = [("u", lambda: u), ("u**1", lambda: u**1), ("u**1.0", lambda: u**1.0), ("(u**1)**1", lambda: (u**1) ** 1), ("copy", lambda: u.copy()),
+           ("deepcopy", lambda: _copy.deepcopy(u)), ("Unit(u)", lambda: Unit(u)), ("Unit(str(u))", lambda: Unit(str(u), registry=u.registry))]
+    if not u.base_offset and u.dimensions is not udims.logarithmic:
+        out += [("u*u/u", lambda: u * u / u), ("(u**2)**0.5", lambda: (u**2) ** 0.5), ("1/(1/u)", lambda: 1 / (1 / u)), ("sqrt(u*u)", lambda: (u * u) ** Fraction(1, 2))]
+    return out
+
+
+def part_algebra(ctx, shard):
+    """identity law through targets that are the source's own unit rebuilt by unit algebra: u**1, copies, Unit(u)...;
+    and the quantity raised to the first power / made positive converts exactly like the quantity itself"""
+    world.reset_world()
+    for src in shard:
+        for dtype, shape in (("float64", "array"), ("float64", "scalar"), ("float32", "array")):
+            x = mk(vals_for(ctx.seed, 1), dtype, src, shape)
+            u = x.units
+            for tname, mkt in _algebra_targets(u):
+                rt = attempt(mkt)
+                if rt[0] != "ok":
+                    ctx.outcome(("algebra-target-refused", src, tname))
+                    continue
+                tgt = rt[1]
+                for rname, f in (
+                    ("to", lambda: x.to(tgt)),
+                    ("in_units", lambda: x.in_units(tgt)),
+                    ("to_value", lambda: x.to_value(tgt)),
+                    ("convert_to_units", lambda: (lambda y: (y.convert_to_units(tgt), y)[1])(x.copy())),
+                ):
+                    ctx.count("evaluations")
+                    r = attempt(f)
+                    case = {"part": "algebra", "src": src, "target": tname, "route": rname, "dtype": dtype, "shape": shape}
+                    base = f"C03|algebra|src={src}|target={tname}|route={rname}"
+                    ctx.outcome(("algebra", src, tname, rname, r[0]))
+                    if r[0] != "ok":
+                        ctx.violation(base + f"|mode=refused:{r[1] if len(r) > 1 else ''}", case, "the same numbers", str(r[1:])[:100])
+                        continue
+                    ctx.decided(("algebra", src, tname, rname, dtype, shape))
+                    vals = np.asarray(r[1].d if isinstance(r[1], unyt_array) else r[1], dtype=float)
+                    want = np.asarray(x.d, dtype=float)
+                    if vals.shape != want.shape or np.any(np.abs(vals - want) > 64 * EPS[dtype] * (np.abs(want) + off_si(u) / abs(float(u.base_value)))):
+                        ctx.violation(base + "|mode=identity-broken", case, want.tolist(), vals.tolist())
+            # the quantity itself through value-preserving operations, then to its base unit
+            base_t = attempt(lambda: x.in_base("mks"))
+            for oname, f in (("x**1", lambda: x**1), ("np.power(x,1)", lambda: np.power(x, 1)), ("np.positive(x)", lambda: np.positive(x)),
+                             ("+x", lambda: +x), ("x*1", lambda: x * 1), ("x/1", lambda: x / 1), ("np.prod([x0])", lambda: np.prod(x.reshape(-1)[:1]))):
+                ctx.count("evaluations")
+                r = attempt(f)
+                case = {"part": "algebra", "src": src, "target": oname, "route": "in_base", "dtype": dtype, "shape": shape}
+                base = f"C03|algebra|src={src}|op={oname}|route=in_base"
+                ctx.outcome(("algebra-op", src, oname, r[0]))
+                if r[0] != "ok" or base_t[0] != "ok":
+                    continue  # a refusal of the operation itself is C08's subject
+                r2 = attempt(lambda: r[1].in_base("mks"))
+                if r2[0] != "ok":
+                    ctx.violation(base + "|mode=refused-after-identity-operation", case, str(base_t[1])[:80], str(r2[1:])[:100])
+                    continue
+                ctx.decided(("algebra-op", src, oname, dtype, shape))
+                want = np.asarray(base_t[1].d, dtype=float).reshape(-1)
+                vals = np.asarray(r2[1].d, dtype=float).reshape(-1)
+                if oname.startswith("np.prod"):
+                    want = want[:1]
+                if r2[1].units != base_t[1].units or vals.shape != want.shape or np.any(np.abs(vals - want) > 64 * EPS[dtype] * (np.abs(want) + off_si(u))):
+                    ctx.violation(base + "|mode=identity-operation-changes-the-quantity", case, want.tolist(), vals.tolist())
+
+
 NAMESAKE_EXPRS = ["code_length", "code_mass", "kcode_mass", "code_length/code_time", "code_mass*code_length/code_time**2", "code_length**2", "pc", "kpc", "Mpc/code_time", "pc**-3", "sqrt(code_length)"]
 
 
@@ -522,6 +594,7 @@ def run(ctx):
     harness.pmap(ctx, part_spellings, [[k] for k in SPELLINGS])
     harness.pmap(ctx, part_registry_default_system, [["cgs"], ["imperial"], ["galactic"], ["mks"]])
     harness.pmap(ctx, part_namesake, [[e] for e in NAMESAKE_EXPRS])
+    harness.pmap(ctx, part_algebra, [[e] for e in ALGEBRA_SOURCES])
     groups = default_groups(ctx.tier)
     shards = []
     for d, names in sorted(groups.items()):
@@ -565,6 +638,8 @@ def replay(case):
         part_base(ctx, [case["unit"]])
     elif case["part"] == "namesake":
         part_namesake(ctx, [case["expr"]])
+    elif case["part"] == "algebra":
+        part_algebra(ctx, [case["src"]])
     else:
         registry = affine_registry()[0] if case["part"] == "affine" else None
         thirds = [case["C"]] if "C" in case else ()
